@@ -42,6 +42,9 @@ pub struct Inner {
     pub parked: bool,
     pub live_epoch: u64,
     pub injected: u64,
+    /// how often remove_tombstones was asked to remove an id that holds a LIVE document (a contract violation
+    /// by the caller; the entry is removed all the same, exactly like the bundled SQLite backend does)
+    pub removed_live: u64,
     /// every document / tombstone ever written: (keyspace, id, stamp, bytes or None for a tombstone)
     pub log: Vec<(String, Key, HLCTimestamp, Option<Vec<u8>>)>,
 }
@@ -167,12 +170,15 @@ impl Storage for ModelStore {
             let mut g = self.inner.lock();
             g.keyspaces.insert(keyspace.to_string());
             let ks = g.data.entry(keyspace.to_string()).or_default();
+            let mut removed_live = 0;
             for k in keys.iter().take(limit) {
-                if matches!(ks.get(k), Some((_, None))) {
-                    ks.remove(k);
+                if matches!(ks.get(k), Some((_, Some(_)))) {
+                    removed_live += 1;
                 }
+                ks.remove(k);
                 done.push(*k);
             }
+            g.removed_live += removed_live;
         }
         if fail {
             return Err(BulkMutationError::new(StoreError::Injected, done));
